@@ -186,8 +186,13 @@ class C18:
                 return "counts/iteration inconsistent"
             # immutability through the API
             before = list(c["s"])
+            h0, str0 = hash(s), str(s)
             x = s.s
             x.append(99)
+            if x:
+                x[0] = 7
+            it = list(s)
+            it.append(3)
             for f in (lambda: setattr(s, "s", [1]), lambda: s.__setitem__(0, 5), lambda: setattr(s, "n_modes", 9)):
                 try:
                     f()
@@ -195,7 +200,7 @@ class C18:
                 except lw.sdk.utils.exceptions.StateError:
                     pass
             sl = s[0:len(before)]
-            if s.s != before or sl.s != before:
+            if s.s != before or sl.s != before or (hash(s), str(s)) != (h0, str0):
                 return "State changed through its API"
             return None
         if k == "herald":
@@ -236,12 +241,29 @@ class C18:
             if len(a) == len(c["b"]) and x.merge(y) != y.merge(x):
                 return "annotated merge not commutative"
             # immutability, including through __getitem__ and iteration
-            before = x.s
+            # (the reference value is built from the case itself, never from an object handed out by the
+            #  state: an aliased inner list would change together with the state and hide the mutation)
+            before = [sorted(m) for m in a]
+            h0, str0, n0 = hash(x), str(x), x.n_photons
+            if x.s != before:
+                return f"AnnotatedState.s is not the sorted label lists: {x.s} vs {before}"
             for i in range(len(a)):
                 x[i].append(77)
             for m in x:
                 m.append(55)
             x.s.append([1])
+            for m in x.s:          # inner label lists handed out by the getter
+                m.append(33)
+                m.reverse()
+            got = x.s
+            if got:
+                got[0] = [8, 8]
+                got[-1].clear()
+            sl_ = x[0:len(a)]
+            for m in sl_.s:
+                m.append(44)
+            if (hash(x), str(x), x.n_photons) != (h0, str0, n0):
+                return "AnnotatedState hash/str/n_photons changed after editing lists obtained from it"
             for f in (lambda: setattr(x, "s", [[1]]), lambda: x.__setitem__(0, [5]), lambda: setattr(x, "n_modes", 9)):
                 try:
                     f()
